@@ -223,7 +223,7 @@ PROPS["C08"] = {
     "assumptions": ["frame argument: if no store executed during a render targets memory reachable from the compiled bundle, the data, the injected data or soy's package-level variables, the state seen by the next render is unchanged, for histories of any length"],
     "level_text": "Bounded symbolic model checking of a frame condition: the engine marks every heap cell reachable from the registry, caller data and soy's package-level variables read-only and reports any Store/MapUpdate/in-place append to them during two renders with symbolic data; byte-identical output of the two renders is asserted as well.",
     "level_note": "Bounds: template dictionary and data shapes in evidence. Trusted: go/ssa, gosym heap model (slices keep Go's capacity/aliasing behaviour), z3.",
-    "technique": "symbolic execution of the go/ssa form with a frozen-memory monitor (frame condition) and SMT-decided output equality; findings confirmed natively by a reflect-based deep digest",
+    "technique": "symbolic execution of the go/ssa form with a frozen-memory monitor (frame condition over bundle, data, renderer and unsynchronised package-level state) and SMT-decided output equality over render histories (failing renders, other templates, JavaScript generation, another configuration in between); findings confirmed natively by a reflect-based deep digest",
 }
 
 # ---------------------------------------------------------------- C09
@@ -248,7 +248,7 @@ PROPS["C09"] = {
     "assumptions": ["Go memory model: calls that only read shared memory and write memory they allocated themselves are race-free and compute what they compute alone"],
     "level_text": "Bounded symbolic model checking of a sufficient non-interference condition: during Tofu rendering and JavaScript generation no store reaches memory that another call could see (registry, data, package-level registries), established on every path with symbolic data.",
     "level_note": "Schedules are not explored; see outside_bounds. Trusted: go/ssa, gosym heap model, z3.",
-    "technique": "symbolic execution of the go/ssa form with a frozen-memory monitor over all shared state (sufficient condition for race freedom); no interleaving exploration",
+    "technique": "symbolic execution of the go/ssa form with a frozen-memory monitor over all shared state (sufficient condition for race freedom) and a vector-clock happens-before check of every heap access of concurrent parses and compilations, under two run-queue disciplines (an explored choice); not an exploration of all interleavings; races confirmed natively with -race",
 }
 
 # ---------------------------------------------------------------- C13
@@ -268,7 +268,7 @@ PROPS["C13"] = {
     "assumptions": ["Go's randomised map iteration is modelled as an arbitrary permutation chosen through solver-visible choice variables; one-site-at-a-time argument of DESIGN 2.6"],
     "level_text": "Bounded symbolic model checking with the environment's nondeterminism (map iteration order, file insertion order) as the symbolic input: every result of compile, render and generate is compared with the reference run for every order within the bound.",
     "level_note": "Bounds in evidence. Trusted: go/ssa, gosym map model, z3.",
-    "technique": "symbolic execution of the go/ssa form with map iteration order as nondeterministic choice variables (one loop at a time), differential against the insertion-order run",
+    "technique": "symbolic execution of the go/ssa form with map iteration order (one loop at a time) and the run-queue discipline as nondeterministic choice variables, differential against the insertion-order / first-in-first-out run",
 }
 
 # ---------------------------------------------------------------- C17
